@@ -1,7 +1,6 @@
-(* C02: the basic form of a union value (kernel K21 = the loops of pack.py:pack_union, translated on every run) and the
-   per-format cache of call-time-dialect packers (kernel K13C). *)
+(* C02: the basic form of a union value (kernel K21 = the loops of pack.py:pack_union, translated on every run). *)
 From Coq Require Import List Bool Arith String ZArith.
-From Verif Require Import UnionModel PackEmit DialectDoc C02UnionOrder C02CachePerFormat.
+From Verif Require Import UnionModel PackEmit C02UnionOrder.
 From VerifGen Require K21.
 Import ListNotations.
 Open Scope string_scope.
@@ -32,17 +31,3 @@ Example C02_union_nonvacuous :
   run_pres (K21.emit [PM "Decimal" (Some 1%nat) str_; PM "int" None Some]) (UObj "Decimal" "1.50") = Some (UStr "1.50") /\
   run_pres (K21.emit [PM "frozenset" (Some 2%nat) lst; PM "str" None Some]) (UStr "ab") = Some (UStr "ab").
 Proof. cbv zeta. repeat split; reflexivity. Qed.
-
-Theorem C02_packer_cache_per_format : forall f1 f2,
-  In f1 mixin_formats -> In f2 mixin_formats -> cache_name false f1 = cache_name false f2 -> f1 = f2.
-Proof. exact packer_cache_per_format. Qed.
-Print Assumptions C02_packer_cache_per_format.
-
-Theorem C02_packer_cache_not_unpacker_cache : forall f1 f2,
-  In f1 mixin_formats -> In f2 mixin_formats -> cache_name false f1 <> cache_name true f2.
-Proof. exact packer_cache_not_unpacker_cache. Qed.
-Print Assumptions C02_packer_cache_not_unpacker_cache.
-
-Example C02_packer_cache_nonvacuous :
-  cache_name false "dict" = "__dialect_dict_packer_cache__" /\ cache_name false "msgpack" = "__dialect_msgpack_packer_cache__".
-Proof. split; reflexivity. Qed.
